@@ -91,7 +91,16 @@ fn toks_json(es: &[(u64, u64, u64, u64)]) -> Value {
 }
 
 /// full observation of an instance after a call returned
+/// progress counter watched by the watchdog thread of main.rs: a library call that never returns (a cycle in a list)
+/// stops it, and the process is aborted instead of hanging the check
+pub static HEARTBEAT: std::sync::atomic::AtomicU64 = std::sync::atomic::AtomicU64::new(0);
+#[inline]
+pub fn beat() {
+    HEARTBEAT.fetch_add(1, std::sync::atomic::Ordering::Relaxed);
+}
+
 pub fn observe<K: KeyT, S: Sut<K>>(c: &S, uni: &[u64], fl: &Flags, ids: &mut AddrIds) -> Value {
+    beat();
     if fl.light {
         // touch everything an observation touches, serialise nothing
         let n: usize = c.parts().iter().map(|p| p.1.len()).sum();
@@ -195,6 +204,7 @@ impl<'a, K: KeyT, S: Sut<K>> Runner<'a, K, S> {
 
     /// apply one op, returning the event record (without obs)
     fn call(&mut self, c: &mut S, op: &Value) -> (Value, bool) {
+        beat();
         if self.fl.progress {
             eprintln!("PROGRESS {} {}", self.sid, op);
         }
@@ -292,6 +302,7 @@ impl<'a, K: KeyT, S: Sut<K>> Runner<'a, K, S> {
         let mut c = self.build()?;
         let ok = catch_unwind(AssertUnwindSafe(|| {
             for op in path {
+                beat();
                 let mut h: Hold<K> = Hold::new();
                 qalloc::tracked(|| c.apply(op, &mut h));
             }
